@@ -12,6 +12,7 @@ from .._utils import value_to_token
 from .generic_value import GenericValue
 from .generic_value import clone
 from .undecided_value import contains_unmanaged
+from .undecided_value import has_star_expression
 
 
 def contains(values, item):
@@ -78,6 +79,10 @@ class CollectionValue(GenericValue):
             )
             return
         else:
+            if has_star_expression(self._ast_node):
+                # containers with star-expressions are not changed
+                # (the values can not be assigned to the elements)
+                return
             elements = self._ast_node.elts
 
         for old_value, old_node in zip(self._old_value, elements):
